@@ -71,11 +71,24 @@ Proof.
     + apply MS_mismatch; [discriminate|]. intros r' H. discriminate.
 Qed.
 
+Lemma not_mismatch_consistent : forall ref ids,
+  is_mismatch (match_id ref ids) = false -> kind_consistent ref ids.
+Proof.
+  intros ref ids H r Er Ne.
+  destruct (match_idP ref ids) as [E|r' Er' N I|N M].
+  - contradiction.
+  - rewrite Er in Er'. inversion Er'; subst. exact I.
+  - discriminate H.
+Qed.
+
 (* ------------------------------------------------------------------ authentication *)
 
 Lemma dns_reference : forall passive peer_name peer_addr,
   peer_dnsid passive peer_name peer_addr = known_dns_name passive peer_name peer_addr.
 Proof. intros [] n a; unfold peer_dnsid, known_dns_name; destruct (N.eqb n a); reflexivity. Qed.
+
+Lemma nil_dec : forall (A : Type) (l : list A), l = [] \/ l <> [].
+Proof. intros A [|x xs]; [left; reflexivity | right; discriminate]. Qed.
 
 Section Authn.
   Variables (passive : bool) (peer_name peer_addr node : N) (ips dnss uris : list N).
@@ -100,17 +113,13 @@ Section Authn.
     refuses = false -> no_contradiction peer_addr dns node ips dnss uris.
   Proof.
     rewrite refuses_unfold. cbv zeta. intros H.
-    destruct (match_idP (Some peer_addr) ips) as [Ei|ri Eri Ni Ii|Ni Mi];
-    destruct (match_idP dns dnss) as [Ed|rd Erd Nd Id|Nd Md];
-    destruct (match_idP (Some node) uris) as [En|rn' Ern Nn In'|Nn Mn];
-    cbn in H; try discriminate;
-    repeat split; intros r Er Ne;
-    try (inversion Er; subst; clear Er);
-    try congruence;
-    try (inversion Eri; subst; assumption);
-    try (inversion Ern; subst; assumption);
-    try (rewrite Erd in Er; inversion Er; subst; assumption).
-    all: try (rewrite Er in H; cbn in H; discriminate).
+    rewrite !orb_false_iff in H. destruct H as [[[[Hi Hd] Hn] _] _].
+    cbn [andb] in Hi.
+    repeat split.
+    - apply not_mismatch_consistent. exact Hi.
+    - destruct dns as [d|]; [|intros r E; discriminate].
+      cbn in Hd. apply not_mismatch_consistent. exact Hd.
+    - apply not_mismatch_consistent. exact Hn.
   Qed.
 
   Lemma authn_node :
@@ -151,16 +160,16 @@ Section Authn.
   Proof.
     intros H R NH.
     destruct dns as [d|] eqn:Ed.
-    - exfalso. apply NH. apply authn_host_partial; auto.
+    - exfalso. apply NH. rewrite <- Ed. apply authn_host_partial; auto.
       left. unfold dns, known_dns_name in Ed. destruct passive; [discriminate|].
       split; [reflexivity|]. destruct (N.eqb peer_name peer_addr) eqn:Q; [discriminate|].
       apply N.eqb_neq. exact Q.
     - split; [reflexivity|].
-      destruct dnss as [|x xs] eqn:Edn.
+      destruct (nil_dec _ dnss) as [Dn|Dn].
       + exfalso. apply NH. rewrite <- Ed. apply authn_host_partial; auto.
-      + split; [discriminate|].
-        destruct ips as [|y ys] eqn:Eip; [reflexivity|].
-        exfalso. apply NH. rewrite <- Ed. apply authn_host_partial; auto. right. right. discriminate.
+      + split; [exact Dn|].
+        destruct (nil_dec _ ips) as [Di|Di]; [exact Di|].
+        exfalso. apply NH. rewrite <- Ed. apply authn_host_partial; auto.
   Qed.
 
   Lemma authn_partial :
